@@ -147,7 +147,13 @@ def run_case(case):
 
     payloads = []
     if sampler == "smc" and case["mode"] != "fixed":
-        opts["checkpoint_callback"] = lambda st: payloads.append(pickle.dumps(st))
+        live_states = []
+
+        def _cb(st):
+            payloads.append(pickle.dumps(st))
+            live_states.append(st)  # the dictionary object itself, as a user who keeps checkpoints in memory has it
+
+        opts["checkpoint_callback"] = _cb
         opts["checkpoint_every"] = 1
     if scripted:
         n = int(np.exp(g.uniform(np.log(2), np.log(500))))
@@ -233,7 +239,10 @@ def run_case(case):
             opts3, _ = draw_opts(g, sampler)
             if opts3.get("adaptive", True) and "max_n_steps" not in opts3:
                 break
-        opts3["resume_from"] = payloads[len(payloads) // 2 - 1]
+        k3 = len(payloads) // 2 - 1
+        from_live = bool(g.random() < 0.5)
+        opts3["resume_from"] = live_states[k3] if from_live else payloads[k3]
+        counters["continued_from_live_state_dictionary"] += int(from_live)
         asp3 = sc.aspire() if scripted else make_aspire(t, xpn, seed=seed_a, flow_kwargs=fk_a)[0]
         rec3 = smcrun.Recorder(abort_on_stall=True, keep_vectors=False)
         res3 = smcrun.run(asp3, n, sampler, dict(opts3), identity=scripted, max_calls=20000, rec=rec3)
@@ -253,6 +262,15 @@ def run_case(case):
                 viol.append({"mech": "C06/beta-not-strictly-increasing", "detail": f"{w3}: betas {b3}"})
             if len(bb) and (bb[-1] != 1.0 or (bb > 1.0).any()):
                 viol.append({"mech": "C06/final-beta-not-one", "detail": f"{w3}: betas end {b3[-3:]}"})
+            # the population itself has to be taken to temperature 1: the checkpoint was at beta < 1, so the continued run
+            # must move particles, and its last move must be at beta = 1
+            try:
+                b_ck = float((pickle.loads(payloads[k3]).get("meta") or {}).get("beta"))
+            except Exception:  # noqa: BLE001
+                b_ck = None
+            moves = [e[2] for e in rec3.events if e[0] == "mutate"]
+            if b_ck is not None and b_ck < 1.0 and (not moves or moves[-1] != 1.0):
+                viol.append({"mech": "C06/continued-run-does-not-reach-temperature-one", "detail": f"{w3}: checkpoint at beta {b_ck!r}; temperatures at which the continued run moved particles: {moves}"})
     optsig = "|".join(f"{k}" for k in sorted(shown))
     nontrivial = [f"{sig}|{optsig}|{len(betas)}"] if len(betas) >= 2 else []
     seen = {}
